@@ -19,5 +19,7 @@ package memdb
 
 // FluindexshEvent represents flush metadata/index event.
 type FlushEvent struct {
-	Callback func(err error)
+	// BeforeFlush invokes after memory store is switched(PrepareFlush) and before it is written(Flush).
+	BeforeFlush func() error
+	Callback    func(err error)
 }
